@@ -155,6 +155,8 @@ func layout1(t types.Type) []Comp {
 			return []Comp{{Name: "nil", Sort: SInt, Kind: KOpaque}}
 		case u.Info()&types.IsComplex != 0:
 			return []Comp{{Name: "c", Sort: SInt, Kind: KOpaque}}
+		default:
+			return []Comp{{Name: "x", Sort: SInt, Kind: KOpaque}}
 		}
 	case *types.Pointer:
 		return []Comp{{Name: "p", Sort: SInt, Kind: KPtr, Typ: u.Elem()}}
